@@ -173,6 +173,72 @@ def _(i, st, a, c):
     return Agg(a[1].tag, [div_real(st, a[0], y) for y in a[1].items])
 
 
+@model(r'<DVec3 as Add<f64>>::add')
+def _(i, st, a, c): return vscale('+', a[0], a[1])
+
+
+@model(r'<f64 as Add<DVec3>>::add')
+def _(i, st, a, c): return vscale('+', a[1], a[0])
+
+
+@model(r'<DVec3 as Sub<f64>>::sub')
+def _(i, st, a, c): return vscale('-', a[0], a[1])
+
+
+@model(r'<f64 as Sub<DVec3>>::sub')
+def _(i, st, a, c): return Agg(a[1].tag, [arith('-', a[0], y) for y in a[1].items])
+
+
+@model(r'DVec3::mul_add')
+def _(i, st, a, c): return vmap2('+', vmap2('*', a[0], a[1]), a[2])
+
+
+@model(r'DVec3::element_sum')
+def _(i, st, a, c):
+    r = None
+    for x in a[0].items:
+        r = x if r is None else arith('+', r, x)
+    return r
+
+
+@model(r'DVec3::element_product')
+def _(i, st, a, c):
+    r = None
+    for x in a[0].items:
+        r = x if r is None else arith('*', r, x)
+    return r
+
+
+@model(r'DVec3::length_recip')
+def _(i, st, a, c):
+    return div_real(st, Fraction(1), sqrt_real(st, dot(a[0], a[0])))
+
+
+@model(r'DVec3::normalize_or_zero', r'DVec3::try_normalize')
+def _(i, st, a, c):
+    raise Unsupported('normalize_or_zero / try_normalize (branching on a float threshold) is not modelled')
+
+
+@model(r'DVec3::truncate')
+def _(i, st, a, c): return Agg('DVec2', list(a[0].items)[:2])
+
+
+@model(r'DVec3::signum')
+def _(i, st, a, c): return Agg(a[0].tag, [f_signum(x) for x in a[0].items])
+
+
+@model(r'DVec3::recip')
+def _(i, st, a, c): return Agg(a[0].tag, [div_real(st, Fraction(1), x) for x in a[0].items])
+
+
+@model(r'DVec3::lerp')
+def _(i, st, a, c): return vmap2('+', a[0], vscale('*', vmap2('-', a[1], a[0]), a[2]))
+
+
+@model(r'DVec3::midpoint')
+def _(i, st, a, c): return vscale('*', vmap2('+', a[0], a[1]), Fraction(1, 2))
+
+
 @model(r'<DVec3 as Neg>::neg')
 def _(i, st, a, c): return Agg(a[0].tag, [neg(x) for x in a[0].items])
 
@@ -192,7 +258,9 @@ def _assign(op):
 
 MODELS.append((re.compile(r'<DVec3 as AddAssign>::add_assign|<DVec3 as AddAssign<DVec3>>::add_assign'), _assign('+')))
 MODELS.append((re.compile(r'<DVec3 as SubAssign>::sub_assign|<DVec3 as SubAssign<DVec3>>::sub_assign'), _assign('-')))
-MODELS.append((re.compile(r'<DVec3 as MulAssign<f64>>::mul_assign'), _assign('*')))
+MODELS.append((re.compile(r'<DVec3 as MulAssign<f64>>::mul_assign|<DVec3 as MulAssign>::mul_assign|<DVec3 as MulAssign<DVec3>>::mul_assign'), _assign('*')))
+MODELS.append((re.compile(r'<DVec3 as AddAssign<f64>>::add_assign'), _assign('+')))
+MODELS.append((re.compile(r'<DVec3 as SubAssign<f64>>::sub_assign'), _assign('-')))
 
 
 @model(r'<DVec3 as DivAssign<f64>>::div_assign')
@@ -1177,6 +1245,16 @@ def _(i, st, a, c):
             raise Unsupported('as_uvec3 of a symbolic vector')
         out.append(int(x))
     return Agg('UVec3', out)
+
+
+@model(r'UVec3::new', r'IVec3::new')
+def _(i, st, a, c): return Agg('UVec3', list(a))
+
+
+@model(r'UVec3::as_dvec3', r'IVec3::as_dvec3')
+def _(i, st, a, c):
+    v = i.deref_read(st, a[0]) if isinstance(a[0], Ref) else a[0]
+    return Agg('DVec3', [Fraction(x) if not is_z3(x) else z3.ToReal(x) for x in v.items])
 
 
 @model(r'<i32 as Ord>::max', r'<usize as Ord>::max', r'<u32 as Ord>::max', r'std::cmp::max', r'core::cmp::max')
